@@ -189,34 +189,49 @@ Section Once.
   Variable c : cfg.
   Let n := length fs.
 
-  (* the key set of all_models is duplicate free and consists of existing files *)
-  Definition K (s : state) : Prop := NoDup (keys s) /\ (forall k, In k (keys s) -> k < n).
+  (* the key set of all_models is duplicate free; fk counts the registered FILES (keys below |files|; the invented
+     names of string-loaded models are above) *)
+  Definition K (s : state) : Prop := NoDup (keys s).
+  Definition fk (s : state) : nat := length (filter (fun x => Nat.ltb x n) (keys s)).
 
-  Lemma K_length s : K s -> length (keys s) <= n.
+  Lemma filter_lt_incl_seq l : incl (filter (fun x => Nat.ltb x n) l) (seq 0 n).
+  Proof. intros k Hk. apply filter_In in Hk as [_ Hk]. apply Nat.ltb_lt in Hk. apply in_seq. lia. Qed.
+  Lemma K_length s : K s -> fk s <= n.
   Proof.
-    intros [Hnd Hb]. rewrite <- (seq_length n 0). apply NoDup_incl_length; [exact Hnd|].
-    intros k Hk. apply in_seq. specialize (Hb k Hk). lia.
+    intros Hnd. unfold fk.
+    pose proof (NoDup_incl_length (NoDup_filter (fun x => Nat.ltb x n) Hnd) (filter_lt_incl_seq (keys s))) as H.
+    rewrite seq_length in H. exact H.
   Qed.
-  Lemma K_fresh_length s g : K s -> g < n -> ~ In g (keys s) -> length (keys s) + 1 <= n.
+  Lemma K_fresh_length s g : K s -> g < n -> ~ In g (keys s) -> fk s + 1 <= n.
   Proof.
-    intros [Hnd Hb] Hg Hni.
-    assert (H : length (g :: keys s) <= n).
-    { rewrite <- (seq_length n 0). apply NoDup_incl_length; [constructor; assumption|].
-      intros k [Hk|Hk]; apply in_seq; [subst; lia | specialize (Hb k Hk); lia]. }
-    cbn in H. lia.
+    intros Hnd Hg Hni. unfold fk.
+    assert (H : length (g :: filter (fun x => Nat.ltb x n) (keys s)) <= length (seq 0 n)).
+    { apply NoDup_incl_length.
+      - constructor; [intro H; apply filter_In in H; tauto | apply NoDup_filter; exact Hnd].
+      - intros k [Hk|Hk]; [subst; apply in_seq; lia | apply filter_lt_incl_seq in Hk; exact Hk]. }
+    rewrite seq_length in H. cbn [length] in H. lia.
   Qed.
-  Lemma K_dset s g v : K s -> g < n -> K (set_all g v s).
+  Lemma fk_mono s s' : K s -> incl (keys s) (keys s') -> fk s <= fk s'.
   Proof.
-    intros [Hnd Hb] Hg. unfold K. autorewrite with st.
-    destruct (keys_dset_cases g v (allm s)) as [[Hin ->]|[Hni ->]]; [split; assumption|].
-    split; [apply NoDup_snoc; assumption|]. intros k Hk. apply in_app_or in Hk as [Hk|[Hk|[]]]; [auto | subst; exact Hg].
+    intros Hnd Hi. unfold fk. apply NoDup_incl_length; [apply NoDup_filter; exact Hnd|].
+    intros k Hk. apply filter_In in Hk as [Hk1 Hk2]. apply filter_In. split; [apply Hi; exact Hk1 | exact Hk2].
   Qed.
-  Lemma K_update s m mf : K s -> mf < n -> K (update_in_repo m mf s).
-  Proof. intros HK Hm. unfold update_in_repo. destruct (dhas mf (allm s)); [exact HK | apply K_dset; assumption]. Qed.
+  Lemma fk_snoc_file l g : g < n ->
+    length (filter (fun x => Nat.ltb x n) (l ++ [g])) = length (filter (fun x => Nat.ltb x n) l) + 1.
+  Proof.
+    intro Hg. rewrite filter_app, app_length. cbn [filter]. apply Nat.ltb_lt in Hg. rewrite Hg. reflexivity.
+  Qed.
+  Lemma K_dset s g v : K s -> K (set_all g v s).
+  Proof.
+    intros Hnd. unfold K. autorewrite with st.
+    destruct (keys_dset_cases g v (allm s)) as [[Hin ->]|[Hni ->]]; [exact Hnd | apply NoDup_snoc; assumption].
+  Qed.
+  Lemma K_update s m mf : K s -> K (update_in_repo m mf s).
+  Proof. intros HK. unfold update_in_repo. destruct (dhas mf (allm s)); [exact HK | apply K_dset; assumption]. Qed.
 
   (* specification of a loader for imported files, at a given fuel *)
   Definition loader_ok (k : nat) (ld : nat -> state -> (err + nat) * state) : Prop :=
-    forall g s, K s -> ~ In g (keys s) -> n + 1 <= k + length (keys s) ->
+    forall g s, K s -> ~ In g (keys s) -> n + 1 <= k + fk s ->
       NoDup (reads s) -> incl (reads s) (keys s) ->
       fst (ld g s) <> inl EFuel /\ NoDup (reads (snd (ld g s))) /\
       (forall m, fst (ld g s) = inr m ->
@@ -224,7 +239,7 @@ Section Once.
          incl (reads (snd (ld g s))) (keys (snd (ld g s)))).
 
   Lemma load_model_once k ld m g s r s' :
-    loader_ok k ld -> K s -> n + 1 <= k + length (keys s) -> NoDup (reads s) -> incl (reads s) (keys s) ->
+    loader_ok k ld -> K s -> n + 1 <= k + fk s -> NoDup (reads s) -> incl (reads s) (keys s) ->
     load_model ld m g s = (r, s') ->
     r <> Some EFuel /\ NoDup (reads s') /\
     (r = None -> K s' /\ incl (keys s) (keys s') /\ incl (reads s') (keys s')).
@@ -246,7 +261,7 @@ Section Once.
   Qed.
 
   Lemma load_files_once k ld m gs : forall s r s',
-    loader_ok k ld -> K s -> n + 1 <= k + length (keys s) -> NoDup (reads s) -> incl (reads s) (keys s) ->
+    loader_ok k ld -> K s -> n + 1 <= k + fk s -> NoDup (reads s) -> incl (reads s) (keys s) ->
     load_files ld m gs s = (r, s') ->
     r <> Some EFuel /\ NoDup (reads s') /\
     (r = None -> K s' /\ incl (keys s) (keys s') /\ incl (reads s') (keys s')).
@@ -259,24 +274,24 @@ Section Once.
       destruct r1 as [e|].
       + intro H. inversion H; subst. split; [exact Hnf|]. split; [exact Hnd1 | discriminate].
       + destruct (Hok eq_refl) as [HK1 [Hi1 Hr1]]. intro H.
-        assert (Hlen : length (keys s) <= length (keys s1)) by (apply NoDup_incl_length; [destruct HK; assumption | exact Hi1]).
+        assert (Hlen : fk s <= fk s1) by (apply fk_mono; assumption).
         destruct (IH s1 r s' Hld HK1 ltac:(lia) Hnd1 Hr1 H) as [Hnf2 [Hnd2 Hok2]].
         split; [exact Hnf2|]. split; [exact Hnd2|]. intro Hr. destruct (Hok2 Hr) as [HK2 [Hi2 Hr2]].
         split; [exact HK2|]. split; [eapply incl_tran; eassumption | exact Hr2].
   Qed.
 
   Lemma load_stmts_once k ld m mf stmts : forall s r s',
-    loader_ok k ld -> K s -> mf < n ->
-    n + 1 <= k + length (keys (update_in_repo m mf s)) ->
+    loader_ok k ld -> K s ->
+    n + 1 <= k + fk (update_in_repo m mf s) ->
     NoDup (reads s) -> (forall x, In x (reads s) -> In x (keys s) \/ x = mf) ->
     load_stmts ld m mf stmts s = (r, s') ->
     r <> Some EFuel /\ NoDup (reads s') /\
     (r = None -> K s' /\ incl (keys s) (keys s') /\ (forall x, In x (reads s') -> In x (keys s') \/ x = mf)).
   Proof.
-    induction stmts as [|gs rest IH]; intros s r s' Hld HK Hmf Hf Hnd Hinc; cbn.
+    induction stmts as [|gs rest IH]; intros s r s' Hld HK Hf Hnd Hinc; cbn.
     - intro H. inversion H; subst. split; [discriminate|]. split; [exact Hnd|]. intros _.
       split; [exact HK|]. split; [apply incl_refl | exact Hinc].
-    - pose proof (K_update s m mf HK Hmf) as HK1.
+    - pose proof (K_update s m mf HK) as HK1.
       destruct (keys_update_in_repo m mf s) as [Hin1 [Hi1 _]].
       assert (Hr1 : incl (reads (update_in_repo m mf s)) (keys (update_in_repo m mf s))).
       { rewrite reads_update_in_repo. intros x Hx. destruct (Hinc x Hx) as [H|H]; [apply Hi1; exact H | subst; exact Hin1]. }
@@ -288,21 +303,19 @@ Section Once.
         destruct r2 as [e|].
         * intro H. inversion H; subst. split; [exact Hnf2|]. split; [exact Hnd2 | discriminate].
         * destruct (Hok2 eq_refl) as [HK2 [Hi2 Hr2]]. intro H.
-          assert (Hlen : length (keys (update_in_repo m mf s)) <= length (keys s2))
-            by (apply NoDup_incl_length; [destruct HK1; assumption | exact Hi2]).
+          assert (Hlen : fk (update_in_repo m mf s) <= fk s2) by (apply fk_mono; assumption).
           assert (Hin2 : In mf (keys s2)) by (apply Hi2; exact Hin1).
-          assert (Hf2 : n + 1 <= k + length (keys (update_in_repo m mf s2))).
+          assert (Hf2 : n + 1 <= k + fk (update_in_repo m mf s2)).
           { destruct (keys_update_in_repo m mf s2) as [_ [Hi3 _]].
-            assert (length (keys s2) <= length (keys (update_in_repo m mf s2)))
-              by (apply NoDup_incl_length; [destruct HK2; assumption | exact Hi3]). lia. }
-          destruct (IH s2 r s' Hld HK2 Hmf Hf2 Hnd2 ltac:(intros x Hx; left; apply Hr2; exact Hx) H) as [Hnf3 [Hnd3 Hok3]].
+            assert (fk s2 <= fk (update_in_repo m mf s2)) by (apply fk_mono; assumption). lia. }
+          destruct (IH s2 r s' Hld HK2 Hf2 Hnd2 ltac:(intros x Hx; left; apply Hr2; exact Hx) H) as [Hnf3 [Hnd3 Hok3]].
           split; [exact Hnf3|]. split; [exact Hnd3|]. intro Hr. destruct (Hok3 Hr) as [HK3 [Hi3 Hr3]].
           split; [exact HK3|]. split; [|exact Hr3]. eapply incl_tran; [exact Hi1|]. eapply incl_tran; eassumption.
   Qed.
 
   (* load_file: the fuel never runs out as long as fuel + |registered files| exceeds the number of files *)
   Lemma load_file_once fuel : forall main g s,
-    K s -> ~ In g (keys s) -> n + 1 <= fuel + length (keys s) ->
+    K s -> ~ In g (keys s) -> n + 1 <= fuel + fk s ->
     NoDup (reads s) -> incl (reads s) (keys s) ->
     fst (load_file fs c fuel main g s) <> inl EFuel /\ NoDup (reads (snd (load_file fs c fuel main g s))) /\
     (forall m, fst (load_file fs c fuel main g s) = inr m ->
@@ -311,8 +324,7 @@ Section Once.
                         incl (reads (snd (load_file fs c fuel main g s))) (keys (snd (load_file fs c fuel main g s))))).
   Proof.
     induction fuel as [|k IH]; intros main g s HK Hg Hf Hnd Hinc.
-    { exfalso. pose proof (K_length s HK). cbn in Hf.
-      (* fuel 0: n + 1 <= |keys| <= n *) lia. }
+    { exfalso. pose proof (K_length s HK). (* fuel 0: n + 1 <= fk <= n *) lia. }
     cbn [load_file].
     destruct (nth_error fs g) as [fc|] eqn:Efc.
     2:{ cbn. split; [discriminate|]. split; [exact Hnd | discriminate]. }
@@ -327,7 +339,7 @@ Section Once.
     set (s2 := alloc g fc s1).
     set (s3 := if (main && negb (cglobal c))%bool then s2 else set_all g mid s2).
     assert (HK3 : K s3).
-    { subst s3. destruct (main && negb (cglobal c))%bool; [exact HK | apply K_dset; [exact HK | exact Hgn]]. }
+    { subst s3. destruct (main && negb (cglobal c))%bool; [exact HK | apply K_dset; exact HK]. }
     assert (Hkeys3 : (keys s3 = keys s /\ (main && negb (cglobal c))%bool = true) \/
                      (keys s3 = keys s ++ [g] /\ (main && negb (cglobal c))%bool = false)).
     { subst s3. destruct (main && negb (cglobal c))%bool; [left; split; reflexivity|]. right. split; [|reflexivity].
@@ -340,15 +352,14 @@ Section Once.
     assert (Hpre3 : forall x, In x (reads s3) -> In x (keys s3) \/ x = g).
     { rewrite Hreads3. intros x Hx. apply in_app_or in Hx as [Hx|[Hx|[]]]; [left|right; auto].
       destruct Hkeys3 as [[-> _]|[-> _]]; [apply Hinc, Hx | apply in_or_app; left; apply Hinc, Hx]. }
-    assert (Hf3 : n + 1 <= k + length (keys (update_in_repo mid g s3))).
+    assert (Hf3 : n + 1 <= k + fk (update_in_repo mid g s3)).
     { destruct (keys_update_in_repo mid g s3) as [Hin [Hi Hc]].
       destruct Hkeys3 as [[E _]|[E _]].
       - destruct Hc as [Hc|[Hni Hc]].
         + exfalso. rewrite Hc, E in Hin. tauto.
-        + rewrite Hc, E, app_length. change (length [g]) with 1. lia.
-      - assert (length (keys s3) <= length (keys (update_in_repo mid g s3)))
-          by (apply NoDup_incl_length; [destruct HK3; assumption | exact Hi]).
-        rewrite E, app_length in H. change (length [g]) with 1 in H. lia. }
+        + unfold fk in *. rewrite Hc, E, fk_snoc_file by exact Hgn. lia.
+      - assert (H : fk s3 <= fk (update_in_repo mid g s3)) by (apply fk_mono; assumption).
+        unfold fk in *. rewrite E, fk_snoc_file in H by exact Hgn. lia. }
     assert (Hnd3 : NoDup (reads s3)) by (rewrite Hreads3; exact Hnd1).
     destruct (if (clazy c && is_nil (frefs fc))%bool then (None, s3)
               else load_stmts (load_file fs c k false) mid g (fimports fc) s3) as [r s4] eqn:E4.
@@ -356,7 +367,7 @@ Section Once.
                    (r = None -> K s4 /\ incl (keys s3) (keys s4) /\ (forall x, In x (reads s4) -> In x (keys s4) \/ x = g))).
     { destruct (clazy c && is_nil (frefs fc))%bool.
       - inversion E4; subst. split; [discriminate|]. split; [exact Hnd3|]. intros _. split; [exact HK3|]. split; [apply incl_refl | exact Hpre3].
-      - exact (load_stmts_once _ _ _ _ _ _ _ _ Hld HK3 Hgn Hf3 Hnd3 Hpre3 E4). }
+      - exact (load_stmts_once _ _ _ _ _ _ _ _ Hld HK3 Hf3 Hnd3 Hpre3 E4). }
     destruct Hres as [Hnf [Hnd4 Hok]].
     destruct r as [e|].
     { cbn [fst snd]. split; [congruence|]. split; [rewrite reads_handler; exact Hnd4 | discriminate]. }
@@ -412,7 +423,7 @@ Qed.
 
 (* C17, first part: a top-level load never runs out of its fuel |files|+1, and opens no file twice. *)
 Theorem load_main_once_raw fs c f s :
-  K fs (begin_op c s) ->
+  K (begin_op c s) ->
   fst (load_main_raw fs c f s) <> inl EFuel /\ NoDup (reads (snd (load_main_raw fs c f s))).
 Proof.
   intro HK. unfold load_main_raw.
@@ -1540,7 +1551,7 @@ Qed.
 
 (* ---- the theorems about the raw load carry over to the load as observed *)
 Theorem load_main_once fs c f s :
-  K fs (begin_op c s) ->
+  K (begin_op c s) ->
   fst (load_main fs c f s) <> inl EFuel /\ NoDup (reads (snd (load_main fs c f s))).
 Proof. intro H. unfold load_main. cbn [fst snd]. rewrite reads_tidy. apply load_main_once_raw. exact H. Qed.
 
@@ -2032,4 +2043,47 @@ Theorem next_load_in_history c b fs0 ops s' :
 Proof.
   intros s H. destruct (run_hist_stable_tidy c ops fs0 (init_state b) (Stable_init b) (Tidy_init b)) as [HS HT].
   exact (next_load_as_if_never_failed c s s' HS HT H).
+Qed.
+
+(* a string load never runs out of fuel either and opens no file twice *)
+Theorem load_str_once_raw fs c fc s :
+  K (begin_op c s) ->
+  fst (load_str_raw fs c fc s) <> inl EFuel /\ NoDup (reads (snd (load_str_raw fs c fc s))).
+Proof.
+  intro HK. unfold load_str_raw. set (s0 := begin_op c s) in *.
+  assert (Hr0 : reads s0 = []) by reflexivity.
+  destruct (fsyn fc). { cbn [fst snd]. rewrite Hr0. split; [discriminate | constructor]. }
+  set (k := anon_key fs s0). set (m := length (heap s0)). set (s2 := alloc k fc s0).
+  assert (HK2 : K s2) by exact HK.
+  assert (Hr2 : reads s2 = []) by reflexivity.
+  assert (Hld : loader_ok fs (S (length fs)) (load_file fs c (S (length fs)) false)).
+  { intros g' s' HK' Hg' Hf' Hnd' Hinc'. destruct (load_file_once fs c (S (length fs)) false g' s' HK' Hg' Hf' Hnd' Hinc') as [A [B C]].
+    split; [exact A|]. split; [exact B|]. intros m' Hm. destruct (C m' Hm) as [C1 [C2 C3]]. destruct (C3 eq_refl). auto. }
+  destruct (if (clazy c && is_nil (frefs fc))%bool then (None, s2)
+            else load_stmts (load_file fs c (S (length fs)) false) m k (fimports fc) s2) as [r s4] eqn:E4.
+  assert (Hres : r <> Some EFuel /\ NoDup (reads s4)).
+  { destruct (clazy c && is_nil (frefs fc))%bool.
+    - inversion E4; subst. split; [discriminate|]. rewrite Hr2. constructor.
+    - destruct (load_stmts_once fs _ _ _ _ _ _ _ _ Hld HK2 ltac:(lia) ltac:(rewrite Hr2; constructor)
+                  ltac:(rewrite Hr2; intros x []) E4) as [A [B _]]. split; assumption. }
+  destruct Hres as [Hnf Hnd4].
+  destruct r as [e|].
+  - cbn [fst snd]. split; [congruence | rewrite reads_handler; exact Hnd4].
+  - split; [apply fst_finish_main_nofuel | rewrite reads_finish_main; exact Hnd4].
+Qed.
+
+Theorem load_str_once fs c fc s :
+  K (begin_op c s) ->
+  fst (load_str fs c fc s) <> inl EFuel /\ NoDup (reads (snd (load_str fs c fc s))).
+Proof. intro H. unfold load_str. cbn [fst snd]. rewrite reads_tidy. apply load_str_once_raw. exact H. Qed.
+
+(* in every history (file loads, string loads, rewrites) the next load reads every file at most once *)
+Theorem once_in_history c b fs0 ops :
+  let s := run_hist c fs0 (init_state b) ops in
+  (forall fs f, fst (load_main fs c f s) <> inl EFuel /\ NoDup (reads (snd (load_main fs c f s)))) /\
+  (forall fs fc, fst (load_str fs c fc s) <> inl EFuel /\ NoDup (reads (snd (load_str fs c fc s)))).
+Proof.
+  intros s. assert (HK : K (begin_op c s)).
+  { destruct (Stable_begin_op c s (run_hist_stable c ops fs0 (init_state b) (Stable_init b))) as [A _]. exact A. }
+  split; intros; [apply load_main_once | apply load_str_once]; exact HK.
 Qed.
